@@ -4,12 +4,15 @@ use crate::markup as m;
 use crate::resolver::ModulePathBorrowed;
 use crate::span::Span;
 use crate::{
-    arithmetic::Exponent, decorator::Decorator, markup::Markup, number::Number, prefix::Prefix,
+    arithmetic::{Exponent, pretty_exponent_parseable},
+    decorator::Decorator,
+    markup::Markup,
+    number::Number,
+    prefix::Prefix,
     pretty_print::PrettyPrint,
 };
 use compact_str::{CompactString, ToCompactString, format_compact};
 use itertools::Itertools;
-use num_traits::Signed;
 
 #[derive(Debug, Clone, Copy, PartialEq, Eq)]
 pub enum UnaryOperator {
@@ -414,7 +417,7 @@ impl PrettyPrint for TypeExpression {
             TypeExpression::Divide(_, lhs, rhs) => {
                 lhs.pretty_print() + m::space() + m::operator("/") + m::space() + with_parens(rhs)
             }
-            TypeExpression::Power(_, lhs, _, exp) => {
+            TypeExpression::Power(operator_span, lhs, _, exp) => {
                 // The base of a power has to be a primary expression: `(A^2)^3`
                 // can not be written as `A^2^3`.
                 let base = match lhs.as_ref() {
@@ -423,12 +426,20 @@ impl PrettyPrint for TypeExpression {
                     }
                     _ => with_parens(lhs),
                 };
-                base + m::operator("^")
-                    + if exp.is_positive() && exp.is_integer() {
-                        m::value(format_compact!("{exp}"))
-                    } else {
-                        m::operator("(") + m::value(format_compact!("{exp}")) + m::operator(")")
-                    }
+                // Keep the spelling of the exponent. `Length²` (no `^` operator) is
+                // written like the exponents of inferred types, so that the echo of an
+                // inferred type is echoed in the same form when it is read back.
+                let exponent = if operator_span.is_none() {
+                    pretty_exponent_parseable(exp)
+                } else if exp.is_integer() {
+                    format_compact!("^{exp}")
+                } else {
+                    format_compact!("^({exp})")
+                };
+                base + match exponent.strip_prefix('^') {
+                    Some(exponent) => m::operator("^") + m::value(exponent.to_compact_string()),
+                    None => m::type_identifier(exponent.clone()),
+                }
             }
         }
     }
